@@ -11,7 +11,7 @@
 #include <sys/wait.h>
 #include <errno.h>
 
-enum kind { O_CREATE, O_FREE, O_FREENULL, O_CRYPT, O_RELOAD, O_RECODE, O_ENABLE, O_INJECT, O_ARM };
+enum kind { O_CREATE, O_FREE, O_FREENULL, O_CRYPT, O_RELOAD, O_RECODE, O_ENABLE, O_INJECT, O_ARM, O_BADCALL };
 struct op { int kind; int a, b, c; char name[48]; };
 #define MAXOPS 200
 static struct op OPS[MAXOPS]; static int NOPS;
@@ -21,7 +21,7 @@ static const char *PROFILE = "api";
 static int P_API, P_FEAT, P_CRYPT, P_INJECT;
 
 /* ---- argument domains */
-static const char *PASSWORDS[8]; static int NPW;
+static const char *PASSWORDS[12]; static int NPW;
 static char LONGPW[420];
 static const unsigned ENABLE_ARGS[] = { 0, 1, 2, 3, 4, 5, 6, 7, 8, 15, 16, 23, 0xFFFFFFF8u, 0xFFFFFFFFu };
 struct recv { int li; unsigned coin; int autodetect; };
@@ -188,9 +188,23 @@ static void apply(const struct op *o, struct mstate *m) {
         polyseed_inject(&d); memset(&d, 0xEE, sizeof d);      /* the caller's struct is gone */
         m->table = o->a; m->nullpat = o->b; st = want = 0;
     } break;
+    case O_BADCALL: {     /* calls that must fail and change nothing */
+        static rseed fixed; static int init; static uint8_t img[32]; static char phr[2048];
+        if (!init) { init = 1; for (int i = 0; i < 19; i++) fixed.secret[i] = (uint8_t)(0x4D + 9 * i); fixed.secret[18] &= 0x3F; fixed.birthday = 77; fixed.features = 0; ref_storage(&fixed, img); ref_phrase(&fixed, 0, 4, phr, 0); }
+        polyseed_data *d = (polyseed_data *)(uintptr_t)0xBEEF; const polyseed_lang *lo = NULL; uint8_t b[32]; memcpy(b, img, 32);
+        switch (o->a) {
+        case 0: b[30] ^= 1; alloc_expected = 1; st = polyseed_load(b, &d); want = m->armed ? ST_MEMORY : ST_CHECKSUM; break;
+        case 1: b[3] ^= 0x20; alloc_expected = 1; st = polyseed_load(b, &d); want = m->armed ? ST_MEMORY : ST_FORMAT; break;
+        case 2: st = polyseed_decode("xxx xxx", 0, &lo, &d); want = ST_NUM_WORDS; break;
+        case 3: st = polyseed_decode_explicit("qq qq qq qq qq qq qq qq qq qq qq qq qq qq qq qq", 0, polyseed_get_lang(5), &d); want = ST_LANG; break;
+        case 4: st = polyseed_decode(phr, 5, &lo, &d); want = ST_CHECKSUM; break;      /* right phrase, wrong coin */
+        }
+        if (st != want) { snprintf(k, sizeof k, "c13:status:%s", o->name); BADV(k, "%s returned %d, model %d", o->name, st, want); }
+        if (st == POLYSEED_OK) { polyseed_free(d); }
+    } break;
     case O_ARM: m->armed = 1; st = want = 0; break;
     }
-    LAST_STATUS = st;
+    LAST_STATUS = (o->kind == O_ENABLE) ? 0 : st;
     /* fault bookkeeping */
     int requested = (E.alloc_seq > 0);
     if (o->kind != O_ARM && o->kind != O_INJECT && o->kind != O_ENABLE) {
@@ -351,6 +365,8 @@ static void build_profile(void) {
         add_op(O_ENABLE, 0, 0, 0, "enable_features(0)"); add_op(O_ENABLE, 1, 0, 0, "enable_features(1)"); add_op(O_ENABLE, 7, 0, 0, "enable_features(7)");
         add_op(O_INJECT, 0, 0, 0, "inject(A)"); add_op(O_INJECT, 1, 7, 0, "inject(B:time,alloc,free=NULL)");
         add_op(O_ARM, 0, 0, 0, "arm-allocation-fault");
+        add_op(O_BADCALL, 0, 0, 0, "load(bad-checksum)"); add_op(O_BADCALL, 1, 0, 0, "load(bad-header)"); add_op(O_BADCALL, 2, 0, 0, "decode(two-words)");
+        add_op(O_BADCALL, 3, 0, 0, "decode_explicit(unknown-words)"); add_op(O_BADCALL, 4, 0, 0, "decode(wrong-coin)");
     } else if (P_FEAT) {
         NSLOT = 1; PASSWORDS[0] = "pw"; NPW = 1;
         RECODES[0] = (struct recv){ 0, 5, 0 }; RECODES[1] = (struct recv){ 3, 5, 1 }; NREC = 2;
@@ -366,6 +382,7 @@ static void build_profile(void) {
     } else if (P_CRYPT) {
         NSLOT = 2;
         PASSWORDS[0] = ""; PASSWORDS[1] = "a"; PASSWORDS[2] = "\xC3\xA9"; PASSWORDS[3] = "e\xCC\x81"; PASSWORDS[4] = "\xEF\xBD\xB6"; PASSWORDS[5] = LONGPW; PASSWORDS[6] = "\xE3\x82\xAB"; NPW = 7;
+        if (G_thorough) { PASSWORDS[7] = "fi"; PASSWORDS[8] = "\xEF\xAC\x81"; NPW = 9; }   /* U+FB01 LATIN SMALL LIGATURE FI is compatibility-equivalent to "fi" */
         RECODES[0] = (struct recv){ 0, 1, 1 }; RECODES[1] = (struct recv){ 1, 9, 0 }; RECODES[2] = (struct recv){ 4, 0, 0 }; NREC = 3;
         add_op(O_ENABLE, 7, 0, 0, "enable_features(7)");
         add_op(O_CREATE, 0, 0, 0, "create(features=0)"); add_op(O_CREATE, 0, 5, 1, "create'(features=5)");
@@ -445,8 +462,8 @@ int main(int argc, char **argv) {
     for (int k = 0; k < 3 && NN > 1; k++) { uint32_t id = k == 0 ? 1 : k == 1 ? NN / 2 : NN - 1; uint16_t ops[256]; int n = history(id, ops); char hn[380]; hist_names(ops, n, -1, hn, sizeof hn); res_sample(r, "state #%u depth %d: %s", id, n, hn); }
     static const char *cls[NCLS + 1]; static char clsn[NCLS][64]; int nc = 0;
     /* outcome histogram per operation kind x status */
-    { static const char *KN[] = { "create", "free", "free_null", "crypt", "reload", "recode", "enable", "inject", "arm" }; static const char *SN[] = { "ok", "num_words", "lang", "checksum", "unsupported", "format", "memory", "mult_lang" };
-      for (int kd = 0; kd <= O_ARM; kd++) for (int s = 0; s < 8; s++) { uint64_t c = 0; for (int i = 0; i < NOPS; i++) if (OPS[i].kind == kd) c += T->op_outcome[i][s]; if (c && nc < NCLS - 1) { snprintf(clsn[nc], sizeof clsn[nc], "%s->%s", KN[kd], SN[s]); cls[nc] = clsn[nc]; r->cls[nc] = c; nc++; } } }
+    { static const char *KN[] = { "create", "free", "free_null", "crypt", "reload", "recode", "enable", "inject", "arm", "failing_call" }; static const char *SN[] = { "ok", "num_words", "lang", "checksum", "unsupported", "format", "memory", "mult_lang" };
+      for (int kd = 0; kd <= O_BADCALL; kd++) for (int s = 0; s < 8; s++) { uint64_t c = 0; for (int i = 0; i < NOPS; i++) if (OPS[i].kind == kd) c += T->op_outcome[i][s]; if (c && nc < NCLS - 1) { snprintf(clsn[nc], sizeof clsn[nc], "%s->%s", KN[kd], SN[s]); cls[nc] = clsn[nc]; r->cls[nc] = c; nc++; } } }
     cls[nc] = NULL;
     out_begin();
     char name[160]; snprintf(name, sizeof name, "E1 profile %s, %d slots, %d operations in the alphabet", PROFILE, NSLOT, NOPS);
